@@ -43,7 +43,7 @@ def case_strategy(draw, name):
            points=pts, zero_iter=draw(st.integers(0, 5)) == 0, max_iter=draw(st.sampled_from([1, 2, 3, 6, 12, 25])))
   if name == 'LMNN':
     c.update(n_neighbors=draw(st.integers(1, 3)), reg=draw(st.floats(0.02, 0.98, allow_nan=False)),
-             learn_rate=10.0 ** draw(st.integers(-7, -3)))
+             learn_rate=10.0 ** draw(st.integers(-7, 3)))
   return c
 
 
